@@ -159,6 +159,12 @@ func tmplInscription(r *rng) []byte {
 func genC14(e *emitter, tier string, seed uint64) {
 	r := newRng(seed ^ 0xC14)
 	quick := tier == "quick"
+	// the data / hash-puzzle outputs as the library builds them (txoutput.go), on a generator of their own
+	if quick {
+		genOutC14(e, newRng(seed^0xC14F), 150)
+	} else {
+		genOutC14(e, newRng(seed^0xC14F), 5000)
+	}
 	ins := func(b []byte, kind string) {
 		h := hex.EncodeToString(b)
 		if len(b) == 0 {
